@@ -47,10 +47,12 @@ func makeDeadline(d time.Duration) fasttime {
 	// Read clockEnd before current: if the clock is found to cover the deadline below, it was
 	// still running when clockEnd was read, so the later read of current is fresh.
 	clockEnd := fast.clockEnd.read()
+	verifPoint("deadlineRead1", nil, int(clockEnd), 0)
 
 	// Increase the deadline since the clock we are reading may be
 	// just about to tick forwards.
 	end := fast.current.read() + durationToTicks(d+clockPeriod)
+	verifPoint("deadlineRead2", nil, int(clockEnd), int(end))
 
 	// Start or extend clock if necessary.
 	if end > clockEnd {
@@ -67,9 +69,11 @@ func makeDeadline(d time.Duration) fasttime {
 		// has been refreshed here or by another goroutine since we read it
 		end = fast.current.read() + durationToTicks(d+clockPeriod)
 		fast.mu.Unlock()
+		verifPoint("deadlineSlow", nil, int(clockEnd), int(end))
 		extendClock(end)
 	}
 
+	verifPoint("deadlineDone", nil, int(fast.current.read()), int(end))
 	return end
 }
 
